@@ -93,10 +93,10 @@ def hsrv_stream(run):
         hs = h.decode()
         esc = hs.replace("%", "%25").replace(" ", "%20")
         # file request: path and query as sent (valid escapes only)
-        acts.append({"a": "raw", "req": H("GET /f%s?x=%s HTTP/1.1\r\nHost: h\r\nConnection: close\r\n\r\n" % (esc, esc))})
+        acts.append({"a": "raw", "first_byte_ms": 15000, "req": H("GET /f%s?x=%s HTTP/1.1\r\nHost: h\r\nConnection: close\r\n\r\n" % (esc, esc))})
         expect.append(["/f%s?x=%s" % (esc, esc)])
         # script: c2 parameter decoded
-        acts.append({"a": "raw", "req": H("GET /c?c2=%s HTTP/1.1\r\nHost: h\r\nConnection: close\r\n\r\n" % esc)})
+        acts.append({"a": "raw", "first_byte_ms": 15000, "req": H("GET /c?c2=%s HTTP/1.1\r\nHost: h\r\nConnection: close\r\n\r\n" % esc)})
         expect.append(["URL:" + hs])
         # c2 header
         acts.append({"a": "direct", "target": "/c", "host": "h.example", "headers": {"c2": hs}, "sni": ""})
